@@ -137,7 +137,7 @@ func (area) Requires() string {
 }
 func (area) Check() string { return "check_case" }
 func (area) Rule() string {
-	return "tree histories (9 of 10): a CAS of 1-25 Directory messages forming a DAG (children mostly with higher index: shared subtrees; chains for deep nesting; empty directories; 3%: a back reference, i.e. a cycle in the map), 0-4 files, 0-3 directories, 0-2 symlinks each, names from a pool of 12; 15% of the CASes have 1-2 malformed messages (name \"\", \".\", \"..\", \"a/b\"; a duplicate name within or across files/directories/symlinks; digest absent, short, upper-case, non-hex or negative size), 5% reference a Directory that is not stored, 5% of blobs are not stored; then 30-80 calls (thorough: up to 200): first MergeDirectoryContents or CreateChildren of the root digest, then VirtualLookup/LookupChild, VirtualReadDir/ReadDir, VirtualOpenChild on directory objects chosen among all existing ones (biased to the newest), interleaved with VirtualMkdir/VirtualRemove/Remove/VirtualRename/VirtualLink/CreateChildren/MergeDirectoryContents and with VirtualOpenSelf (read/write/truncate), VirtualSetAttributes (size/permissions/owner), VirtualWrite, VirtualAllocate and reads on leaves; each GetDirectory fails with probability 10%; cache histories (1 of 10): 20-60 GetDirectory/GetTreeRootDirectory/GetTreeChildDirectory calls on cachingDirectoryFetcher (LRU, capacity 1-4 objects / 40-200 bytes) over 3-6 hashes x 2 instance names, Tree digests colliding with Directory digests, both key formats; non-trivial = a tree history with at least 3 successful fetches, one failed fetch and one refused mutation of a CAS backed file, or a cache history with a hit and an eviction; distinct by hash of the full case term"
+	return "tree histories (9 of 10): a CAS of 1-25 Directory messages forming a DAG (children mostly with higher index: shared subtrees; chains for deep nesting; empty directories; 3%: a back reference, i.e. a cycle in the map), 0-4 files, 0-3 directories, 0-2 symlinks each, names from a pool of 12; 20% of the CASes have 1-3 malformed messages (mostly near the root) (name \"\", \".\", \"..\", \"a/b\"; a duplicate name within or across files/directories/symlinks; digest absent, short, upper-case, non-hex or negative size), 5% reference a Directory that is not stored, 5% of blobs are not stored; then 30-80 calls (thorough: up to 200): first MergeDirectoryContents or CreateChildren of the root digest, then VirtualLookup/LookupChild, VirtualReadDir/ReadDir, VirtualOpenChild on directory objects chosen among all existing ones (biased to the newest), interleaved with VirtualMkdir/VirtualRemove/Remove/VirtualRename/VirtualLink/CreateChildren/MergeDirectoryContents and with VirtualOpenSelf (read/write/truncate), VirtualSetAttributes (size/permissions/owner), VirtualWrite, VirtualAllocate and reads on leaves; each GetDirectory fails with probability 10%; cache histories (1 of 10): 20-60 GetDirectory/GetTreeRootDirectory/GetTreeChildDirectory calls on cachingDirectoryFetcher (LRU, capacity 1-4 objects / 40-200 bytes) over 3-6 hashes x 2 instance names, Tree digests colliding with Directory digests, both key formats; non-trivial = a tree history with at least 3 successful fetches, one failed fetch and one refused mutation of a CAS backed file, or a cache history with a hit and an eviction; distinct by hash of the full case term"
 }
 
 // ---- generator ---------------------------------------------------------------
@@ -169,7 +169,7 @@ func genTree(r *rng.R, thorough bool) history {
 	var h history
 	n := 1 + r.Intn(25)
 	chain := r.Chance(25)
-	malformed := r.Chance(15)
+	malformed := r.Chance(20)
 	missing := r.Chance(5)
 	cyclic := r.Chance(3)
 	nblobs := 0
@@ -241,8 +241,12 @@ func genTree(r *rng.R, thorough bool) history {
 		h.Cas = append(h.Cas, m)
 	}
 	if malformed {
-		for i, c := 0, 1+r.Intn(2); i < c; i++ {
+		for i, c := 0, 1+r.Intn(3); i < c; i++ {
+			// mostly near the root, where exploration gets to
 			m := &h.Cas[r.Intn(n)]
+			if r.Chance(60) {
+				m = &h.Cas[r.Intn((n+2)/3)]
+			}
 			bad := []string{"", ".", "..", "a/b"}[r.Intn(4)]
 			anyName := func() (string, bool) {
 				var all []string
